@@ -46,7 +46,7 @@ class SchedReader(AudioReader):
                 else:
                     self.vf_victim_steps, self.vf_idle_reads = st.steps, 0
         data = AudioReader.read(self)
-        self.vf_blocks.append(data)
+        self.vf_blocks.append(data if data is None else bytes(data))  # (a block may be a bytearray / memoryview: the log keeps its content)
         s.yield_point("read-end")
         return data
 
@@ -75,7 +75,7 @@ class OuterProxy:
 
     def read(self):
         data = self._vf_inner.read()
-        self.vf_seen.append(data)
+        self.vf_seen.append(data if data is None else bytes(data))
         return data
 
     def __getattr__(self, name):
